@@ -173,7 +173,7 @@ fn edge<const N: usize>(first_sym: usize) {
     core::mem::forget(qv);
 }
 
-// @h props=C13,C04:t tier=quick family=T mem=8 timeout=1200 role=qvector.builder.edge258
+// @h props=C13,C04:t tier=quick family=T mem=5 timeout=1200 role=qvector.builder.edge258
 // @bound length 258 (two lines): symbols 0..252 concrete (j mod 4), symbols 253..257 symbolic bytes; get index over all usize
 // @funcs QVectorBuilder::push, QVectorBuilder::build, QVector::get, qvector::DataLine::set_symbol, qvector::DataLine::get_unchecked
 #[kani::proof]
@@ -182,7 +182,7 @@ fn c13_edge_258() {
     edge::<258>(253);
 }
 
-// @h props=C13 tier=quick family=T mem=8 timeout=1200 role=qvector.builder.edge256
+// @h props=C13 tier=quick family=T mem=5 timeout=1200 role=qvector.builder.edge256
 // @bound length 256 (exactly one full line): symbols 0..250 concrete, 251..255 symbolic; get(256) must be None
 // @funcs QVectorBuilder::push, QVectorBuilder::build, QVector::get
 #[kani::proof]
@@ -191,7 +191,7 @@ fn c13_edge_256() {
     edge::<256>(251);
 }
 
-// @h props=C13 tier=thorough family=T mem=8 timeout=1200 role=qvector.builder.edge257
+// @h props=C13 tier=thorough family=T mem=5 timeout=1200 role=qvector.builder.edge257
 // @bound length 257: symbols 252..256 symbolic
 // @funcs QVectorBuilder::push, QVectorBuilder::build, QVector::get
 #[kani::proof]
@@ -211,7 +211,7 @@ fn c13_false_twin() {
     assert!(qv.get(2) == Some(0));
 }
 
-// @h props=C13 tier=quick family=T mem=8 timeout=900 role=qvector.builder.history
+// @h props=C13 tier=quick family=T mem=5 timeout=900 role=qvector.builder.history
 // @bound two mixed histories of concrete shape (push, extend 2, push, extend 3 / extend 2, push, push, extend 1) with symbolic i16 values
 // @funcs QVectorBuilder::push, QVectorBuilder::extend, QVectorBuilder::build, QVector::get, QVector::len
 #[kani::proof]
